@@ -4,7 +4,7 @@
 set -u
 G=$1; SRC=$2; NEWN=$3
 P=${SRC%%-*}
-WT=/tmp/s2_$G; OUT=/tmp/s2_out/$G/$SRC; DST=/verif/seeded/$P-$NEWN
+R=${ROUND:-s2}; WT=/tmp/${R}_$G; OUT=/tmp/${R}_out/$G/$SRC; DST=/verif/seeded/$P-$NEWN
 cd $WT && git checkout -q -- . && git clean -fdq -e _build -e _build_thr -e _build_tsan 2>/dev/null
 THR=""; grep -qi "ENABLE_THREADING" $OUT/notes.md && THR=1
 CFG="-DCMAKE_BUILD_TYPE=Debug"; B=$WT/_build
@@ -25,10 +25,10 @@ if [ "$R0" = "0" ] && [ "$R1" != "0" ] && echo "$PASSED" | grep -q "100% tests p
 import json,sys,re
 dst,p,r0,r1,passed,g,src=sys.argv[1:]
 notes=open(dst+"/notes.md").read()
-json.dump({"breaks_property":p,"round":2,
+json.dump({"breaks_property":p,"round":int(__import__("os").environ.get("ROUND","s2")[1:]),
  "needs_to_manifest":re.sub(r"\s+"," ",notes)[:600],
- "origin":"round 2: written by an independent sub-agent that saw only the property texts and a scratch worktree of /repo at 06700af (nothing from /verif); asked for realistic, subtle changes",
- "confirmed":{"how":"tools/confirm_seed2.sh %s %s in scratch worktree /tmp/s2_%s (cmake build; ctest full suite with the patch; demo.c built against pristine and patched library)"%(g,src,g),
+ "origin":"round %s: written by an independent sub-agent that saw only the property texts and a scratch worktree of /repo (nothing from /verif); asked for realistic, subtle changes" % __import__("os").environ.get("ROUND","s2")[1:],
+ "confirmed":{"how":"tools/confirm_seed2.sh %s %s in the group's scratch worktree under /tmp (cmake build; ctest full suite with the patch; demo.c built against pristine and patched library)"%(g,src),
    "pristine_demo_rc":int(r0),"patched_demo_rc":int(r1),"suite_with_patch":passed}},open(dst+"/meta.json","w"),indent=1)
 PY
   echo "$SRC CONFIRMED -> $DST"
